@@ -70,7 +70,7 @@ def run_one(path, tier):
 def main():
     args = [a for a in sys.argv[1:] if not a.startswith("--")]
     tier = "thorough" if "--thorough" in sys.argv else "quick"
-    paths = args or sorted([os.path.join(VERIF, "mutants", f) for f in os.listdir(os.path.join(VERIF, "mutants")) if f.endswith(".diff")])
+    paths = [os.path.abspath(a) for a in args] or sorted([os.path.join(VERIF, "mutants", f) for f in os.listdir(os.path.join(VERIF, "mutants")) if f.endswith(".diff")])
     bad = 0
     with cf.ThreadPoolExecutor(max_workers=int(os.environ.get("JOBS", "4"))) as ex:
         for r in ex.map(lambda p: run_one(p, tier), paths):
